@@ -2,7 +2,7 @@
 import fcntl, hashlib, json, os, random, re, subprocess, sys, time
 
 ROOT = os.path.dirname(os.path.dirname(os.path.abspath(__file__)))
-REPO = "/repo"
+REPO = os.environ.get("VERIF_REPO", "/repo")   # override only for pre-testing seeded changes in a scratch worktree
 BUILD = os.path.join(ROOT, ".build")
 COQ = os.path.join(ROOT, "coq")
 NPROC = 16
@@ -196,17 +196,31 @@ def build_driver():
     open(stamp, "w").write(h.hexdigest())
     return True, out
 
+def _alt():
+    return REPO != "/repo"
+
 def build_harness(release=False):
     """cargo build of the harness against /repo's working tree, hooks on."""
-    env = {"CARGO_TARGET_DIR": os.path.join(BUILD, "target"), "RUSTFLAGS": "--cfg " + GUARD}
     hd = os.path.join(ROOT, "harness")
-    # keep the lock file in step with /repo's (path dependency, no registry crates)
+    tgt = os.path.join(BUILD, "target")
+    if _alt():
+        # scratch copy of the harness crate pointing at the alternative repository
+        tag = hashlib.sha256(REPO.encode()).hexdigest()[:8]
+        alt = os.path.join(BUILD, "harness_" + tag)
+        sh(["rm", "-rf", alt]); sh(["cp", "-r", hd, alt])
+        ct = open(os.path.join(alt, "Cargo.toml")).read().replace('path = "/repo"', 'path = "%s"' % REPO)
+        open(os.path.join(alt, "Cargo.toml"), "w").write(ct)
+        hd = alt; tgt = os.path.join(BUILD, "target_" + tag)
+    env = {"CARGO_TARGET_DIR": tgt, "RUSTFLAGS": "--cfg " + GUARD}
     cmd = "cargo build --offline" + (" --release" if release else "")
     rc, out = sh(cmd, cwd=hd, env=env, timeout=3000)
     return rc == 0, out
 
 def harness_exe(release=False):
-    return os.path.join(BUILD, "target", "release" if release else "debug", "selen_corr")
+    tgt = "target"
+    if _alt():
+        tgt = "target_" + hashlib.sha256(REPO.encode()).hexdigest()[:8]
+    return os.path.join(BUILD, tgt, "release" if release else "debug", "selen_corr")
 
 def driver_exe():
     return os.path.join(BUILD, "ocaml", "driver")
